@@ -17,7 +17,7 @@ from vf import core
 
 MOD = "vf.checks.c09"
 POOL = {
-    "temperature": ["K", "R", "mK", "kK", "MK"],
+    "temperature": ["K", "R", "mK", "kK", "MK", "degC", "degF", "mdegC", "kdegC"],  # offset scales: K = value*scale + AFFINE[unit]
     "energy": ["J", "erg", "eV", "keV", "MeV", "kg*m**2/s**2", "g*cm**2/s**2", "kJ", "Ry"],
     "mass": ["kg", "g", "Msun", "me", "amu", "lb", "mg"],
     "length": ["m", "cm", "km", "angstrom", "nm", "pc", "um", "inch"],
@@ -37,6 +37,7 @@ MEMBERS = {
 }
 OUTSIDE = {"thermal": "g", "mass_energy": "K", "spectral": "K", "sound_speed": "g", "lorentz": "kg", "schwarzschild": "s", "compton": "J",
            "number_density": "m", "effective_temperature": "m/s"}
+AFFINE = {"degC": 273.15, "mdegC": 273.15, "kdegC": 273.15, "degF": 459.67 * 5.0 / 9.0}  # K = value*scale + this
 _K = {}
 
 
@@ -115,13 +116,13 @@ def _kw(c):
     return kw
 
 
-def _close(a, b, rtol):
+def _close(a, b, rtol, atol=0.0):
     a = np.atleast_1d(np.asarray(a, dtype=float))
     b = np.atleast_1d(np.asarray(b, dtype=float))
     if a.shape != b.shape:
         return False
     with np.errstate(all="ignore"):
-        return bool(np.all(np.abs(a - b) <= rtol * np.abs(b) + 1e-300))
+        return bool(np.all(np.abs(a - b) <= rtol * np.abs(b) + 1e-300 + atol))
 
 
 def judge(c, part):
@@ -154,6 +155,7 @@ def judge(c, part):
             fu = code[fd]
         part.count("quantity in a code-unit registry")
     sf, stt = float(Unit(fu, registry=reg).base_value), float(Unit(tu, registry=reg).base_value)
+    of, ot = AFFINE.get(fu, 0.0), AFFINE.get(tu, 0.0)  # kelvins to add after scaling (exact definitions, not read from the library)
     if eq == "lorentz":
         if fd == "velocity":
             vals = [b * consts()["c"] / sf for b in c["vals"]]
@@ -173,15 +175,19 @@ def judge(c, part):
         arr = np.array(vals, dtype="float64")
     mk = lambda: (unyt_quantity(arr[0], fu, registry=reg) if c["scalar"] else unyt_array(arr.copy(), fu, registry=reg))  # noqa: E731
     x = mk()
-    xsi = np.asarray(arr, dtype=float) * sf
+    xsi = np.asarray(arr, dtype=float) * sf + of
     want_si = formula(eq, fd, td, xsi, mu, gamma)
     if not np.all(np.isfinite(want_si)) or np.any(want_si == 0) or np.any(np.abs(want_si / stt) > 1e250) or np.any(np.abs(want_si / stt) < 1e-250):
         part.count("excluded_range")
+        return out
+    if ot and np.any(np.abs(want_si) < 1.0):
+        part.count("excluded: sub-kelvin result requested as a reading on an offset scale (cancels against the zero point)")
         return out
     rtol = 1e-11 if eq != "lorentz" else 1e-7
     f32 = arr.dtype == np.float32
     if f32:
         rtol = 5e-6  # a handful of single-precision roundings, but never an overflow to inf in a double-range result
+    atol_si = 8 * rtol * (of + ot)  # a reading on an offset scale is the difference of two numbers near the zero point: absolute rounding of that size
     if fu not in SI_COHERENT or tu not in SI_COHERENT:
         part.nt((eq, fd, td, fu, tu))
     part.count(f"{eq}: {fd}->{td}")
@@ -209,8 +215,8 @@ def judge(c, part):
         if (np.asarray(x).tobytes(), str(x.units), str(x.dtype)) != before:
             bad(f"copying-form-mutated-input:{rn}", now=x)
             x = mk()
-        got_si = np.asarray(r, dtype=float) * stt
-        if not _close(got_si, want_si, rtol):
+        got_si = np.asarray(r, dtype=float) * stt + ot
+        if not _close(got_si, want_si, rtol, atol_si):
             bad(f"formula:{rn}", got_SI=got_si.tolist() if np.ndim(got_si) else float(got_si), want_SI=np.asarray(want_si).tolist())
         if rn != "to_value":
             if r.units != Unit(tu, registry=reg) or str(r.units) != str(Unit(tu, registry=reg)):
@@ -221,7 +227,7 @@ def judge(c, part):
         return out
     y = res["to_equivalent"]
     for rn, r in res.items():
-        if not _close(np.asarray(r), np.asarray(y), 1e-14):
+        if not _close(np.asarray(r), np.asarray(y), 1e-14, atol_si / stt * 1e-3):
             bad(f"entry-points-disagree:{rn}", got=r, ref=y)
     # in-place twins
     for rn, rf in {"convert_to_equivalent": lambda q: q.convert_to_equivalent(tu, eq, **kw), "convert_to_units": lambda q: q.convert_to_units(tu, equivalence=eq, **kw)}.items():
@@ -233,7 +239,7 @@ def judge(c, part):
             continue
         if z.units != y.units or str(z.units) != str(y.units):
             bad(f"inplace-unit-differs:{rn}", inplace=z.units, copy=y.units)
-        elif not _close(np.asarray(z), np.asarray(y), rtol if f32 else 1e-13):
+        elif not _close(np.asarray(z), np.asarray(y), rtol if f32 else 1e-13, atol_si / stt):
             bad(f"inplace-numbers-differ:{rn}", inplace=z, copy=y)
     # array-valued mu / gamma broadcast against a scalar input
     if c.get("array_kw") and kw and c["scalar"]:
@@ -244,25 +250,28 @@ def judge(c, part):
             rb = mk().to_equivalent(tu, eq, **kw2)
             wants = [formula(eq, fd, td, xsi, kw2.get("mu", np.float64(mu))[i] if k0 == "mu" else mu, kw2.get("gamma", gamma)[i] if k0 == "gamma" else gamma) for i in range(3)]
             w3 = np.array([float(np.ravel(w)[0]) for w in wants])
-            g3 = np.asarray(rb, dtype=float) * stt
+            g3 = np.asarray(rb, dtype=float) * stt + ot
             if np.shape(rb) == () and np.all(w3 == w3[0]):
                 g3 = np.full(3, float(g3))  # the keyword does not enter this direction of the formula
-            if not _close(g3, w3, rtol):
+            if not _close(g3, w3, rtol, atol_si):
                 bad(f"array-valued-keyword:{k0}", got=rb, want=[float(np.ravel(w)[0]) for w in wants])
         except Exception as e:
             bad(f"array-valued-keyword-raises:{k0}", error=f"{type(e).__name__}: {e}")
     # there and back
     try:
         back = y.to_equivalent(fu, eq, **kw)
-        if back is None or not _close(np.asarray(back), np.asarray(arr, dtype=float), rtol * (10 if eq != "lorentz" else 1e3)):
+        if back is None or not _close(np.asarray(back), np.asarray(arr, dtype=float), rtol * (10 if eq != "lorentz" else 1e3), 10 * atol_si / sf):
             bad("round-trip", back=back, x=arr.tolist())
     except Exception as e:
         bad("round-trip-raises", error=f"{type(e).__name__}: {e}")
     # via an intermediate member
-    if c["mid"] not in (fd, td):
+    mid_ok = True
+    if c["mu_"] in AFFINE and c["mid"] not in (fd, td):
+        mid_ok = bool(np.all(np.abs(formula(eq, fd, c["mid"], xsi, mu, gamma)) >= 1.0))
+    if c["mid"] not in (fd, td) and mid_ok:
         try:
             via = mk().to_equivalent(c["mu_"], eq, **kw).to_equivalent(tu, eq, **kw)
-            if via is None or not _close(np.asarray(via), np.asarray(y), rtol * 10):
+            if via is None or not _close(np.asarray(via), np.asarray(y), rtol * 10, 10 * atol_si / stt):
                 bad(f"via-intermediate:{c['mid']}", via=via, direct=y)
         except Exception as e:
             bad(f"via-intermediate-raises:{c['mid']}", error=f"{type(e).__name__}: {e}")
